@@ -61,6 +61,8 @@ def enumerate_cases(tier: str):
     for k in range(256):
         yield {"version": "2.2" if k % 2 else "1.4", "ids": [k], "install": "direct", "ops": req}
         yield {"version": "2.0" if k % 2 else "1.5", "ids": list(range(1, k + 1)), "install": "direct", "ops": req}
+    for k in range(0, 256):
+        yield {"version": "2.2" if k % 2 else "1.5", "ids": list(range(0, k + 1)), "install": "direct", "ops": req}
     for k in (250, 252, 253, 254):
         # nearly full registries without the gateway node 0, filled to the brim by requests
         yield {"version": "2.1", "ids": list(range(1, k + 1)), "install": "direct", "ops": [["rx", "255;255;3;0;3;\n"]] * (256 - k)}
